@@ -495,11 +495,28 @@ func c08StoredBlocks(b *core.B) {
 		{`<%= for (i) in [1, 2, 3] { %><% contentFor("a") { %>A<% if (i == 2) { continue } %>B<% } %><%= cap() { %>x<%= contentOf("a") %>y<% } %>z<% } %>`, "xAByzxAxAByz"},
 		{`<%= for (i) in [1, 2, 3] { %><% contentFor("a") { %>A<%= i %><% if (i == 2) { continue } %>B<% } %>(<%= contentOf("a") %>)<% } %>`, "(A1B)(A2(A3B)"},
 		{`<%= for (i) in [1, 2] { %><%= cap() { %><%= cap() { %><%= cap() { %>a<% if (i == 1) { continue } %>b<% } %>c<% } %>d<% } %>e<% } %>`, "aabcde"},
+		// the signal belongs to the statement that holds the helper's call, whatever else
+		// runs a block before that statement is done (condition of an if, argument of another
+		// block helper or of a template function, iterable of an inner loop, second operand)
+		{`<%= for (i) in [1,2] { %>a<%= if (cap() { %>b<% continue %>c<% }) { %>k<% let q = 1 %>m<% } %>d<% } %>`, "akmakm"},
+		{`<%= for (i) in [1,2] { %>a<%= wrapS(cap() { %>b<% continue %>c<% }) { %>X<% let q = 1 %>Y<% } %>d<% } %>`, "a(b:XY)a(b:XY)"},
+		{`<% let f = fn(s) { %>1<% let q = 1 %>2<%= s %>3<% } %><%= for (i) in [1,2] { %>a<%= f(cap() { %>b<% break %>c<% }) %>d<% } %>`, "a12b3"},
+		{`<%= for (i) in [1,2] { %>a<%= for (k) in three(cap() { %>b<% continue %>c<% }) { %>k<% let q = 1 %>m<% } %>d<% } %>`, "akmkmkmakmkmkm"},
+		{`<%= for (x) in [1,2,3] { %><%= capS() { %>a<% break %>b<% } + capS() { %>p<%= "q" %>r<% } %>|<% } %>`, "apqr"},
+		// a block stored inside another helper's block, replayed by the loop body itself
+		{`<%= for (x) in [1,2,3] { %><%= cap() { %><% contentFor("a") { %>A<% if (n == 1) { break } %>B<% } %><% } %>[<%= contentOf("a", {n: 1}) %>][<%= contentOf("a", {n: 2}) %>]|<% } %>`, "[A"},
 	} {
 		if !b.Begin("stored blocks: " + c.t) {
 			continue
 		}
-		res := render(b, c.t, c08Ctx())
+		ctx := c08Ctx()
+		ctx.Set("wrapS", func(s template.HTML, h plush.HelperContext) (template.HTML, error) {
+			blk, err := h.Block()
+			return template.HTML("(" + string(s) + ":" + blk + ")"), err
+		})
+		ctx.Set("three", func(s template.HTML) []int { return []int{1, 2, 3} })
+		ctx.Set("capS", func(h plush.HelperContext) (string, error) { return h.Block() })
+		res := render(b, c.t, ctx)
 		b.NonTrivialStr(c.t)
 		b.Count("control-in-stored-or-nested-helper-blocks")
 		if res.Pan == nil && (res.Err != nil || res.Out != c.want) {
@@ -533,9 +550,61 @@ func c08NilElements(b *core.B) {
 	}
 }
 
+// c08LaterExecutions: a block stored by one execution and replayed by later ones (the context
+// outlives a render) behaves in each of them as if it were written there: what an earlier
+// replay ran into - a break, a continue - is not left behind for the next one.
+func c08LaterExecutions(b *core.B) {
+	if !b.Begin("stored blocks over several executions") {
+		return
+	}
+	ctx := c08Ctx()
+	var kept plush.HelperContext
+	ctx.Set("keep", func(h plush.HelperContext) string { kept = h; return "" })
+	ctx.Set("replay", func(n int, h plush.HelperContext) (string, error) {
+		c := h.New()
+		c.Set("n", n)
+		return kept.BlockWith(c)
+	})
+	steps := []struct{ t, want string }{
+		{`<%= for (x) in [1] { %><% keep() { %>A<% if (n == 1) { break } %>B<% } %><% } %>`, ""},
+		{`[<%= replay(2) %>]`, "[AB]"},
+		{`[<%= replay(1) %>]`, "[A]"},
+		{`[<%= replay(2) %>]`, "[AB]"},
+		{`[<%= replay(2) %>]<%= if (true) { %>X<% let q = 1 %>Y<% } %>`, "[AB]XY"},
+		// outside of any loop the break ends the block and nothing else
+		{`[<%= replay(1) %>]|<%= if (true) { %>X<% let q = 1 %>Y<% } %>|<%= replay(1) %>|<%= replay(2) %>`, "[A]|XY|A|AB"},
+		{`<%= for (x) in [1,2] { %><%= cap() { %>x<%= replay(2) %>y<% } %>|<% } %>`, "xABy|xABy|"},
+		{`<%= for (x) in [2,1,2] { %><%= cap() { %>x<%= replay(x) %>y<% let q = 1 %>z<% } %>|<% } %>[<%= replay(2) %>]`, ""},
+	}
+	for i, st := range steps {
+		res := render(b, st.t, ctx)
+		b.Count("executions-sharing-a-stored-block")
+		if st.want == "" && i > 0 {
+			// what a break in a block replayed by hand (BlockWith of a kept helper context)
+			// does to the loop around it is not pinned down here - only that it leaves
+			// nothing behind: whole iterations, then the last replay complete
+			ok := res.Err == nil && strings.HasSuffix(res.Out, "[AB]")
+			for _, it := range strings.Split(strings.TrimSuffix(res.Out, "[AB]"), "|") {
+				ok = ok && (it == "" || it == "xAByz" || it == "xAyz" || it == "xA")
+			}
+			if res.Pan == nil && !ok {
+				b.Violate("wrong-loop-output|stored-block-in-a-later-execution", fmt.Sprintf("step %d %s: got %s", i, st.t, res))
+				return
+			}
+			continue
+		}
+		if res.Pan == nil && (res.Err != nil || res.Out != st.want) {
+			b.Violate("wrong-loop-output|stored-block-in-a-later-execution", fmt.Sprintf("step %d %s: want %q, got %s", i, st.t, st.want, res))
+			return
+		}
+	}
+	b.NonTrivialStr("stored blocks over several executions")
+}
+
 func c08Run(b *core.B) {
 	if b.Batch == 0 {
 		c08StoredBlocks(b)
+		c08LaterExecutions(b)
 		c08NilElements(b)
 	}
 	r := b.Rng(1)
